@@ -598,7 +598,7 @@ func (u *Unit) checkCalleeFrame(fc *frameCtx, pc *Term, fr *FrameSpec, name stri
 			props = append(props, ok)
 		}
 		for _, m := range fr.Maps {
-			alts := []*Term{c.Ge(c.Root(m), cx.bound)}
+			alts := []*Term{c.Ge(c.Root(m), cx.bound), c.Eq(m, c.Nil())}
 			for _, x := range cx.fr.Maps {
 				alts = append(alts, c.Eq(m, x))
 			}
